@@ -170,6 +170,11 @@ def behaviour(rec, b, table, rng, tier):
             if t2 is not None:
                 rec.load('cxt', t2, 'own', how='file', enc=enc, suffix='.CXT', via='load')
                 rec.load('cxt', t2, 'own', how='file', enc=enc, suffix='.cxt', via='load_cxt')
+                rec.load('cxt', t2, 'own', how='file', enc=enc, suffix='.cxt', via='Definition.fromfile', tag='definition')
+        dtext = rec.ctx.definition().tostring(frmat='cxt')
+        ok, o_, p_, cells_ = TR.read_cxt(dtext)
+        rec.ev('t.dump', fmt='cxt', how='string', enc='', tag='Definition.tostring', out='ok', rd_ok=bool(ok), objs=o_,
+               props=p_, cells=cells_)
     # -------------------------------------------------------------------- csv / python-literal / index exports
     else:
         objs, props = labels('any' if k == 2 else 'latin1', n, m, rng)
@@ -190,6 +195,7 @@ def behaviour(rec, b, table, rng, tier):
             if t2 is not None:
                 rec.load('csv', t2, 'own', how='file', enc=enc, suffix='.Csv', via='load')
                 rec.load('csv', t2, 'own', how='file', enc=enc, suffix='.csv', via='load_csv')
+                rec.load('csv', t2, 'own', how='file', enc=enc, suffix='.csv', via='Definition.fromfile', tag='definition')
         lit = rec.ctx.tostring(frmat='python-literal')
         rec.load('python-literal', lit, 'own')
         for enc in encs:
